@@ -6,9 +6,10 @@
 (* program and emits it with the model's verdicts for its own probe-input family.      *)
 (* The program space is explored in slices (constant Slice).                           *)
 (***************************************************************************************)
-EXTENDS Layout, Json
+EXTENDS Layout, Kinds, Json
 
-CONSTANTS Slice,        \* "A" map x style x trim | "B" skip x only x None | "C" extra policies | "D" lists | "E" omit_default | "F" stacking
+CONSTANTS Kind,         \* the model kind the logical shapes are declared in (Kinds.tla): "dataclass" stands for every total kind
+          Slice,        \* "A" map x style x trim | "B" skip x only x None | "C" extra policies | "D" lists | "E" omit_default | "F" stacking
           MaxOverlays,
           EmitCases
 
@@ -18,7 +19,7 @@ IdB == Id(<<"b">>, 1, 0)          \* b_  (trailing underscore)
 IdC == Id(<<"c", "d">>, 0, 0)     \* c_d (two words, visible to name styles)
 IdR == Id(<<"rest">>, 0, 0)
 IdP == Id(<<"p">>, 0, 1)          \* _p  (private)
-Fld(id, req, ty) == [id |-> id, req |-> req, ty |-> ty, oreq |-> TRUE]
+Fld(id, req, ty) == FieldOf(Kind, [id |-> id, req |-> req, ty |-> ty])
 
 Shapes3 == {<<Fld(IdA, TRUE, "int"), Fld(IdB, r2, "str"), Fld(IdC, r3, "int")>> : r2 \in BOOLEAN, r3 \in BOOLEAN}
 Shapes4 == {<<Fld(IdA, TRUE, "int"), Fld(IdB, r2, "str"), Fld(IdC, FALSE, "int"), Fld(IdR, TRUE, "any")>> : r2 \in BOOLEAN}
@@ -126,9 +127,11 @@ ProbeInputs ==
 
 Probes == {[d |-> d, out |-> LoadModel(Sch, shape, d)] : d \in ProbeInputs}
 
-\* objects to dump: every field set / every subset of optional fields at its default
-Objects == {[i \in 1..Len(shape) |-> IF i \in D THEN DflV(i) ELSE GoodV(i)] : D \in SUBSET Optional}
-Dumps == {[obj |-> o, out |-> DumpModel(Sch, shape, o)] : o \in Objects}
+\* objects to dump: every field set / every subset of optional fields at its default (absent, where the kind has no defaults)
+Objects == {[i \in 1..Len(shape) |-> IF i \in D THEN (IF shape[i].hasdfl THEN DflV(i) ELSE AbsentV) ELSE GoodV(i)] : D \in SUBSET Optional}
+\* ... and each of them with one typed field holding a value its dumper refuses
+BadObjects == {[o EXCEPT ![i] = BadV(i)] : o \in Objects, i \in {j \in 1..Len(shape) : shape[j].ty # "any"}}
+Dumps == {[obj |-> o, fails |-> DumpFails(Sch, shape, o), out |-> DumpModel(Sch, shape, o)] : o \in Objects \cup BadObjects}
 
 (* ------------------------------ model-level properties -------------------------------- *)
 \* a created loader accepts the input its own layout prescribes and gives every field its value
@@ -144,6 +147,22 @@ OmitDefaultRoundTrip ==
   (CreatedIn /\ CreatedOut /\ PsIn = PsOut /\ (Sch.extra_out.p = "skip" \/ Sch.extra_in.p # "forbid")) =>
       \A o \in Objects : LET r == LoadModel(Sch, shape, DumpModel(Sch, shape, o)) IN
                          r.ok => \A i \in LiveIn : r.obj[i] = o[i]
+\* C17 at model level: declaring the same logical model in another kind changes nothing but the absence of defaults -
+\* same paths, same loader verdict, same outcome for every probe up to AbsentV for DflV; a dumper refused for a total kind is
+\* refused for the TypedDict as well
+Logical == [i \in 1..Len(shape) |-> [id |-> shape[i].id, req |-> shape[i].req, ty |-> shape[i].ty]]
+Blur(o) == [i \in 1..Len(o) |-> IF o[i] \in {AbsentV, NoneV} THEN DflV(i) ELSE o[i]]
+KindsUniform ==
+  \A k \in Kinds :
+    LET sh == ShapeOf(k, Logical) IN
+    /\ Paths(Sch, sh, "in") = PsIn /\ Paths(Sch, sh, "out") = PsOut
+    /\ Refused(Sch, sh, "in") = ~CreatedIn
+    /\ (k \in TotalKinds /\ Kind \in TotalKinds) => Refused(Sch, sh, "out") = ~CreatedOut
+    /\ (Refused(Sch, ShapeOf("dataclass", Logical), "out") => Refused(Sch, sh, "out"))
+    /\ CreatedIn => \A d \in ProbeInputs :
+          LET r1 == LoadModel(Sch, sh, d)
+              r2 == LoadModel(Sch, shape, d) IN
+          r1.ok = r2.ok /\ r1.errs = r2.errs /\ r1.extra = r2.extra /\ (r1.ok => Blur(r1.obj) = Blur(r2.obj))
 PathsDisjoint == CreatedIn => \A i, j \in LiveIn : i # j => PsIn[i] # PsIn[j] /\ ~IsPrefix(PsIn[i], PsIn[j])
 \* precedence: a field named by the map ignores style and trim; skip beats only
 MapBeatsStyle == \A i \in 1..Len(shape) : (MapHits(Sch, shape[i]) # {} /\ PsIn[i] # SKIP) =>
